@@ -20,6 +20,8 @@ func init() {
 			a.noEscapeOfWiped("S.no-escape-of-wiped")
 			a.c16Whitespace()
 			a.c16QueryParse("V.query-parse")
+			a.taggedPlaintextClass("V.whitespace")
+			a.allWhiteExact("V.whitespace")
 			// the text recovered from a received message travels to the caller unchanged, also when the handling of the same
 			// message reports an error (a tagged plaintext whose tag offers nothing usable is still the user's text)
 			for _, name := range []string{"(*Conversation).toSendEncoded", "(*Conversation).withInjectionsPlain"} {
